@@ -59,7 +59,7 @@ func (e *Event) String() string {
 type Fault struct {
 	Site int    `json:"site"`
 	N    int    `json:"n"`
-	Kind string `json:"kind"` // err, errdup, panic-err, panic-str, panic-int, panic-struct
+	Kind string `json:"kind"` // err, errdup, errnested, panic-err, panic-str, panic-int, panic-struct, panic-stringer, panic-badstringer
 }
 
 // Plan decides the outcomes of all code blocks of one parse.
@@ -78,6 +78,8 @@ type Plan struct {
 	// ErrPct: percent of code-block invocations that return an error (kind
 	// "err") chosen by hash rather than listed in Faults.
 	ErrPct int `json:"err_pct,omitempty"`
+	// NilValPct: chance (percent) that an action returns a nil value.
+	NilValPct int `json:"nil_val_pct,omitempty"`
 }
 
 // Injected is one error handed to the parser by a block.
@@ -101,7 +103,9 @@ type Ctx struct {
 	Overflow bool // more than MaxEvents events
 	Backward bool // the globalStore counter went backwards or was lost
 	// Nested, when set by the glue, runs a re-entrant parse.
-	Nested     func()
+	Nested func()
+	// NestedErr runs a re-entrant parse that fails and returns its error as it is.
+	NestedErr  func() error
 	NestedRuns int
 	// StatsDigest is filled by the glue after the parse: the caller's
 	// Stats.ChoiceAltCnt rendered canonically.
@@ -135,6 +139,17 @@ type Node struct {
 
 // PanicStruct is one of the panic payload types.
 type PanicStruct struct{ Site, N int }
+
+// GoodStringer is a panic payload that is a fmt.Stringer and no error.
+type GoodStringer struct{ S string }
+
+func (g GoodStringer) String() string { return g.S }
+
+// BadStringer is a panic payload whose String method itself panics (the fmt
+// package contains such panics; whoever prints the value some other way must too).
+type BadStringer struct{ xs []string }
+
+func (b *BadStringer) String() string { return b.xs[0] }
 
 func mix(z uint64) uint64 {
 	z += 0x9e3779b97f4a7c15
@@ -271,6 +286,19 @@ func (c *Ctx) inject(site, n int, f *Fault) error {
 		e := errors.New("DUP")
 		c.Injected = append(c.Injected, Injected{Seq: len(c.Events) - 1, Site: site, N: n, Kind: f.Kind, Err: e, Msg: "DUP"})
 		return e
+	case "errnested":
+		// what an include directive does: parse something else with the same
+		// package and hand its error (an error list of that parse) back unchanged
+		var e error
+		if c.NestedErr != nil && c.NestedRuns < 16 {
+			c.NestedRuns++
+			e = c.NestedErr()
+		}
+		if e == nil {
+			e = errors.New(fmt.Sprintf("EN%d.%d", site, n))
+		}
+		c.Injected = append(c.Injected, Injected{Seq: len(c.Events) - 1, Site: site, N: n, Kind: f.Kind, Err: e, Msg: e.Error()})
+		return e
 	}
 	c.Panicked = f
 	switch f.Kind {
@@ -285,6 +313,14 @@ func (c *Ctx) inject(site, n int, f *Fault) error {
 	case "panic-int":
 		c.Injected = append(c.Injected, Injected{Seq: len(c.Events) - 1, Site: site, N: n, Kind: f.Kind, Msg: strconv.Itoa(1000*site + n)})
 		panic(1000*site + n)
+	case "panic-stringer":
+		v := GoodStringer{fmt.Sprintf("PG%d.%d", site, n)}
+		c.Injected = append(c.Injected, Injected{Seq: len(c.Events) - 1, Site: site, N: n, Kind: f.Kind, Msg: fmt.Sprintf("%v", v)})
+		panic(v)
+	case "panic-badstringer":
+		v := &BadStringer{}
+		c.Injected = append(c.Injected, Injected{Seq: len(c.Events) - 1, Site: site, N: n, Kind: f.Kind, Msg: fmt.Sprintf("%v", v)})
+		panic(v)
 	default:
 		v := PanicStruct{site, n}
 		c.Injected = append(c.Injected, Injected{Seq: len(c.Events) - 1, Site: site, N: n, Kind: f.Kind, Msg: fmt.Sprintf("%v", v)})
@@ -364,6 +400,13 @@ func (p *Plan) PredTruth(site, n int) bool {
 	return int(H(p.Seed, site, n, 2)%100) < p.PredTruePct
 }
 
+// NilValue says whether the action block (site, n) returns a nil value
+// (`return nil, nil` is an ordinary thing for an action to do; a matched
+// expression whose value is nil is still matched).
+func (p *Plan) NilValue(site, n int) bool {
+	return p.NilValPct > 0 && int(H(p.Seed, site, n, 7)%100) < p.NilValPct
+}
+
 // Nests says whether the action block (site, n) makes a re-entrant Parse call.
 func (p *Plan) Nests(site, n int) bool {
 	return p.NestedPct > 0 && int(H(p.Seed, site, n, 4)%100) < p.NestedPct
@@ -412,7 +455,10 @@ func Act(gs map[string]any, site, line, col, off int, text []byte, st map[string
 	if c.Plan.Misbehaves(site, n) {
 		misbehave(st, site, n)
 	}
-	v := &Node{Site: site, N: n, Text: string(text)}
+	var v any = &Node{Site: site, N: n, Text: string(text)}
+	if c.Plan.NilValue(site, n) {
+		v = nil
+	}
 	if f != nil {
 		return v, c.inject(site, n, f)
 	}
